@@ -338,7 +338,8 @@ func findIDInQueue[M interface{ ID() EventID }](q *queue[M], id EventID, autoID 
 
 		pos := -1
 		if delta := id - firstID; id >= firstID {
-			if delta >= uint64(q.count) { //nolint:gosec // int always positive
+			// The newest message (delta == count-1) has nothing after it to replay.
+			if delta >= uint64(q.count-1) { //nolint:gosec // count is at least 1 here
 				return -1
 			}
 			pos = int(delta) //nolint:gosec // delta < q.count, which is an int
@@ -365,7 +366,9 @@ func findIDInQueue[M interface{ ID() EventID }](q *queue[M], id EventID, autoID 
 		i++
 		if i == len(q.buf) {
 			i = 0
-		} else if i == q.tail {
+		}
+		if i == q.tail {
+			// The newest message was found, there is nothing after it to replay.
 			i = -1
 		}
 	}
